@@ -17,4 +17,6 @@ CONSTANTS
   ShardProcs = 2
   ShardFlips = 0
   InPlace = TRUE
+  Big = 0
+  PosWidth = 0
 INVARIANT ReplicaSetConstant
